@@ -8,7 +8,7 @@
              C23/ProofsPhi.v    run_ba (block arguments) and run_phi (phi nodes, LLVM's multi-entry rule)
    `None` = poison / undefined behaviour; all widths w >= 1, all bit patterns. *)
 From Coq Require Import ZArith List String Bool.
-From XV Require Import C15.Spec Gen.C23_tables C23.Model C23.Sem C23.ProofsBits C23.ProofsTables C23.ProofsPhi.
+From XV Require Import C15.Spec Gen.C23_tables C23.Model C23.Sem C23.ProofsBits C23.ProofsTables C23.ProofsPhi C23.Whole C23.ProofsWhole.
 Import ListNotations.
 Local Open Scope Z_scope.
 
@@ -158,7 +158,73 @@ Theorem C23_phi_one_entry_per_edge :
 Proof. exact phi_one_entry_per_edge. Qed.
 Print Assumptions C23_phi_one_entry_per_edge.
 
+(* WHOLE FUNCTION (integer fragment: constants, the 13 binary ops with flags, icmp, trunc/zext/sext, select, return,
+   br / cond_br with block arguments incl. the repaired same-successor case).  Machines in C23/Whole.v:
+   run_src = block arguments + sem_d;  run_tgt = per block the instructions conv_instr emits (generated tables),
+   executed with sem_i, blocks entered through the phi table k_build builds (LLVM's rule).  tr_prog translates block
+   by block under the complete val_map; whole_okb is the decidable well-formedness (one definition per id, every op
+   translated, branch targets / operand counts, conversion order visits every block once; for unrepaired code also:
+   equal operands on a double edge).  For every such function, every input and every fuel: if the source does not get
+   stuck (operand of the wrong type / not yet defined, op outside the fragment) the target computes the SAME outcome:
+   the returned bit pattern, poison/UB exactly when the source executes it, out-of-fuel alike.
+   (That conv_func's output is this translation -- selects materialised as instructions -- is checked on every
+   generated case by coq/C23/Enc.v:whole_agrees, not proved.) *)
+Theorem C23_whole_function_sim : forall f T, tr_prog f = Ok T -> whole_okb f = true ->
+  forall fuel inputs,
+    let e0 := combine (map fst (d_args (nth 0 f ddflt))) inputs in
+    run_src f fuel 0 e0 <> WStuck -> run_tgt T fuel 0 e0 = run_src f fuel 0 e0.
+Proof. exact whole_function_sim. Qed.
+Print Assumptions C23_whole_function_sim.
+(* the same from any block and any pair of related environments, with the hypotheses spelled out as propositions *)
+Theorem C23_whole_sim_general : forall f V pt,
+  vm_ok V f -> tr_ok V f ->
+  k_build condbr_same_block_special_case (tr_kfunc V f) (block_order f) = Ok pt ->
+  wf (tr_kfunc V f) -> (condbr_same_block_special_case = false -> no_conflict (tr_kfunc V f)) ->
+  NoDup (block_order f) -> (forall i, (i < List.length (tr_kfunc V f))%nat -> In i (block_order f)) ->
+  forall fuel cur ed ei, Rel V ed ei -> run_src f fuel cur ed <> WStuck ->
+  run_tgt (mkT (tr_bodies V f) (tr_kfunc V f) pt) fuel cur ei = run_src f fuel cur ed.
+Proof. exact whole_sim. Qed.
+Print Assumptions C23_whole_sim_general.
+(* ... and for the LITERAL output of conv_func, executed by run_lit (phis as listed in each block): whenever that output
+   is the block-wise translation itself (lit_matches: same instruction lists, terminators and phi entries -- i.e. no
+   select had to be materialised for a double edge with differing operands; decided per generated case by
+   coq/C23/Enc.v:lit_matchesb), the IR function conv_func produced computes what the dialect function computes *)
+Theorem C23_conv_func_sim : forall f bs T, conv_func f = Ok bs -> tr_prog f = Ok T -> lit_matches bs T ->
+  whole_okb f = true ->
+  forall fuel inputs,
+    let e0 := combine (map fst (d_args (nth 0 f ddflt))) inputs in
+    run_src f fuel 0 e0 <> WStuck -> run_lit bs fuel 0 e0 = run_src f fuel 0 e0.
+Proof. exact conv_func_sim. Qed.
+Print Assumptions C23_conv_func_sim.
+(* the same as TRANSLATION VALIDATION: both hypotheses are computable checks (lit_matchesb reflects lit_matches) *)
+Theorem C23_conv_func_validated : forall f bs T, conv_func f = Ok bs -> tr_prog f = Ok T ->
+  lit_matchesb bs T = true -> whole_okb f = true ->
+  forall fuel inputs,
+    let e0 := combine (map fst (d_args (nth 0 f ddflt))) inputs in
+    run_src f fuel 0 e0 <> WStuck -> run_lit bs fuel 0 e0 = run_src f fuel 0 e0.
+Proof. exact conv_func_validated. Qed.
+Print Assumptions C23_conv_func_validated.
+Theorem C23_lit_sim : forall bs T, lit_matches bs T -> wf (t_k T) ->
+  forall fuel cur e, run_lit bs fuel cur e = run_tgt T fuel cur e.
+Proof. exact lit_sim. Qed.
+Print Assumptions C23_lit_sim.
+
+(* one operation: the instruction conv_instr emits does to a related environment what the source op does *)
+Theorem C23_instr_sim : forall V ed ei i p, V_id V -> Rel V ed ei -> def_ok V i -> conv_instr V i = Ok p ->
+  instr_goal V ei (fst p) (exec_d ed i).
+Proof. exact instr_sim. Qed.
+Print Assumptions C23_instr_sim.
+
 (* non-vacuity *)
+Example C23_ex_whole_ok : whole_okb ex_func = true.
+Proof. exact ex_func_ok. Qed.
+Example C23_ex_whole_runs : exists T, tr_prog ex_func = Ok T /\
+  run_src ex_func 10 0 (ex_env [100; 100; 1]) = WRet 101 /\ run_tgt T 10 0 (ex_env [100; 100; 1]) = WRet 101 /\
+  run_src ex_func 10 0 (ex_env [5; 200; 0]) = WRet 201 /\ run_tgt T 10 0 (ex_env [5; 200; 0]) = WRet 201 /\
+  run_src ex_func 10 0 (ex_env [127; 3; 1]) = WPoison /\ run_tgt T 10 0 (ex_env [127; 3; 1]) = WPoison /\
+  run_src ex_func 3 0 (ex_env [1; 250; 1]) = WFuel /\ run_tgt T 3 0 (ex_env [1; 250; 1]) = WFuel.
+Proof. exact ex_func_runs. Qed.
+
 Example C23_ex_add_nsw_poison : sem_i Add (mkF true false false false false) 8 100 100 = None /\
                                  sem_i Add no_flags 8 100 100 = Some 200.
 Proof. split; reflexivity. Qed.
